@@ -268,6 +268,150 @@ Theorem C19_old_lru_wrapper_freshness_refuted :
 Proof. exact lru_old_interleaving_stale. Qed.
 Print Assumptions C19_old_lru_wrapper_freshness_refuted.
 
+
+(* ------------------------- round 3: the wrapped function acts while the wrapper is inside it ------------------------- *)
+(* Histories are forests (Model/C19.v, section Reentrant): [XCall a body raises] is a call with arguments a; if it
+   invokes the wrapped function, the invocation performs [body] (clock advances, further calls of the same wrapper)
+   and then raises or returns f a n, n = number of invocations begun before.  The state carries the log of the
+   invocations begun: (arguments, clock value). *)
+
+(* The histories of the theorems above are the forests without bodies and failures: both wrappers' flat models are
+   the forest models restricted to them (so the correspondence streams sic/lru and sicx/lrx exercise one model). *)
+Theorem C19_forests_extend_flat_histories :
+  forall (A K R : Type) (key : A -> K) (keqb : K -> K -> bool) (f : A -> N -> R) (valid : option Z) (t0 : Z)
+         (h : list (@event A)),
+  map (fun o => mkXO (o_arg o) (o_now o) (o_hit o) (Some (o_res o))) (snd (sic_run key keqb f valid (sic_init t0) h))
+    = snd (sicx_run key keqb f valid (embed h) (sx_init t0)) /\
+  forall mx : nat,
+  map (fun oi => (mkXO (o_arg (fst oi)) (o_now (fst oi)) (o_hit (fst oi)) (Some (o_res (fst oi))), snd oi))
+      (snd (lru_run key keqb f mx valid (lru_init t0) h))
+    = snd (lrx_run key keqb f mx valid (embed h) (lx_init t0)).
+Proof.
+  intros A K R key keqb f valid t0 h. split; [exact (sicx_flat_init A K R key keqb f valid t0 h)|].
+  intros mx. exact (lrx_flat_init A K R key keqb f valid mx t0 h).
+Qed.
+Print Assumptions C19_forests_extend_flat_histories.
+
+(* single_item_cache, every forest: every value a call (at any depth) returned is the value of a logged invocation
+   for the caller's own key - unexpired at the clock value the caller read when served from the cache, the caller's
+   own invocation otherwise; the wrapped function is invoked exactly by the calls not served from the cache. *)
+Theorem C19_sicx_returns_computed_for_equal_args :
+  forall (A K R : Type) (key : A -> K) (keqb : K -> K -> bool) (f : A -> N -> R) (valid : option Z),
+  (forall x y, keqb x y = true <-> x = y) ->
+  forall (t0 : Z) (h : @xevs A),
+  let res := sicx_run key keqb f valid h (sx_init t0) in
+  Forall (fun o => forall r, xo_res o = Some r ->
+            exists n a' tc, nth_error (sx_log (fst res)) n = Some (a', tc) /\ r = f a' (N.of_nat n) /\
+              key a' = key (xo_arg o) /\
+              if xo_hit o then fresh valid (xo_now o) tc = true else a' = xo_arg o /\ tc = xo_now o) (snd res) /\
+  length (sx_log (fst res)) = length (filter (fun o => negb (xo_hit o)) (snd res)).
+Proof. exact sicx_sound. Qed.
+Print Assumptions C19_sicx_returns_computed_for_equal_args.
+
+(* single_item_cache, any state: served from the cache iff the entry is for an equal key and unexpired; a call whose
+   wrapped function fails leaves the entry exactly as it was. *)
+Theorem C19_sicx_hit_iff_entry_of_last_call :
+  forall (A K R : Type) (key : A -> K) (keqb : K -> K -> bool) (valid : option Z),
+  (forall x y, keqb x y = true <-> x = y) ->
+  forall (s : @sx_st A R) (a : A),
+  (exists r, sx_lookup key keqb valid s a = Some r) <->
+  (exists la lr lt, sx_entry s = Some (la, lr, lt) /\ key la = key a /\ fresh valid (sx_now s) lt = true).
+Proof. intros A K R key keqb valid H. exact (sicx_hit_iff A K R key keqb valid H). Qed.
+Print Assumptions C19_sicx_hit_iff_entry_of_last_call.
+
+Theorem C19_sicx_failed_call_forgets_nothing :
+  forall (A K R : Type) (key : A -> K) (keqb : K -> K -> bool) (f : A -> N -> R) (valid : option Z)
+         (s : @sx_st A R) (a : A),
+  sx_lookup key keqb valid s a = None ->
+  sicx_ev key keqb f valid (XCall a XNil true) s =
+  (mkSX (sx_entry s) (sx_now s) (sx_log s ++ [(a, sx_now s)]), [mkXO a (sx_now s) false None]).
+Proof. exact sicx_failed_call_forgets_nothing. Qed.
+Print Assumptions C19_sicx_failed_call_forgets_nothing.
+
+(* lru_cache_with_expiry, every forest from an empty cache: at the end AND whenever a call at any depth completes
+   (in particular while an outer call is still inside the wrapped function) the cache holds at most max_size
+   entries, one per key; every value returned was produced by a logged invocation for the caller's own key,
+   unexpired when served from the cache; the wrapped function is invoked exactly by the calls not served from the
+   cache (failing ones included). *)
+Theorem C19_lrx_size_and_returns :
+  forall (A K R : Type) (key : A -> K) (keqb : K -> K -> bool) (f : A -> N -> R) (valid : option Z),
+  (forall x y, keqb x y = true <-> x = y) ->
+  forall (mx : nat) (t0 : Z) (h : @xevs A),
+  let res := lrx_run key keqb f mx valid h (lx_init t0) in
+  (length (lx_items (fst res)) <= mx /\ NoDup (map fst (lx_items (fst res)))) /\
+  Forall (fun oi =>
+            (forall r, xo_res (fst oi) = Some r ->
+               exists n a' tc, nth_error (lx_log (fst res)) n = Some (a', tc) /\ r = f a' (N.of_nat n) /\
+                 key a' = key (xo_arg (fst oi)) /\
+                 if xo_hit (fst oi) then fresh valid (xo_now (fst oi)) tc = true
+                 else a' = xo_arg (fst oi) /\ tc = xo_now (fst oi)) /\
+            length (snd oi) <= mx /\ NoDup (map fst (snd oi))) (snd res) /\
+  length (lx_log (fst res)) = length (filter (fun o => negb (xo_hit o)) (map fst (snd res))).
+Proof. exact lrx_sound. Qed.
+Print Assumptions C19_lrx_size_and_returns.
+
+(* History-only order theorem for forests (holds since 962d1ca, F-C19-3: pop, then assign).  A call USES its key when it
+   returns a value (served from the cache, or it stored what it computed; nested calls complete before the call whose
+   invocation made them; a call that raised used nothing).  From an empty cache, every forest: the entries are strictly
+   ordered by the position - in order of completion - of the last call that used their key, at the end and in the content
+   recorded when any call at any depth completed; the trim drops the head, i.e. the least recently used key. *)
+Theorem C19_lrx_ordered_by_last_use :
+  forall (A K R : Type) (key : A -> K) (keqb : K -> K -> bool) (f : A -> N -> R) (valid : option Z),
+  (forall x y, keqb x y = true <-> x = y) ->
+  forall (mx : nat) (t0 : Z) (h : @xevs A),
+  let res := lrx_run key keqb f mx valid h (lx_init t0) in
+  StronglySorted (fun e1 e2 => xlast_use key keqb (fst e1) (map fst (snd res)) < xlast_use key keqb (fst e2) (map fst (snd res)))
+                 (lx_items (fst res)) /\
+  forall past o it rest, snd res = past ++ (o, it) :: rest ->
+    StronglySorted (fun e1 e2 => xlast_use key keqb (fst e1) (map fst past ++ [o]) < xlast_use key keqb (fst e2) (map fst past ++ [o])) it.
+Proof. exact lrx_sorted_by_last_use. Qed.
+Print Assumptions C19_lrx_ordered_by_last_use.
+
+(* any state: a call is served from the cache iff an unexpired entry for its key is held; then the wrapped function
+   is not invoked (whatever it would do), the log does not grow and the entry moves to the most-recent end. *)
+Theorem C19_lrx_hit_iff_unexpired_entry_held :
+  forall (A K R : Type) (key : A -> K) (keqb : K -> K -> bool) (f : A -> N -> R) (valid : option Z),
+  (forall x y, keqb x y = true <-> x = y) ->
+  forall (mx : nat) (s : @lx_st A K R) (a : A),
+  ((exists e, lx_lookup key keqb valid s a = Some e) <->
+   (exists ts r, In (key a, (ts, r)) (lx_items s) /\ fresh valid (lx_now s) ts = true)) /\
+  forall body raises e, lx_lookup key keqb valid s a = Some e ->
+    lrx_ev key keqb f mx valid (XCall a body raises) s =
+    (mkLX (lru_remove keqb (key a) (lru_live valid (lx_now s) (lx_items s)) ++ [e]) (lx_now s) (lx_log s),
+     [(mkXO a (lx_now s) true (Some (snd (snd e))),
+       lru_remove keqb (key a) (lru_live valid (lx_now s) (lx_items s)) ++ [e])]).
+Proof.
+  intros A K R key keqb f valid H mx s a. split; [exact (lrx_hit_iff A K R key keqb valid H s a)|].
+  intros body raises e. exact (lrx_hit_step A K R key keqb f valid mx s a body raises e).
+Qed.
+Print Assumptions C19_lrx_hit_iff_unexpired_entry_held.
+
+(* a call whose wrapped function fails: only the expiry sweep has happened - nothing added, nothing evicted. *)
+Theorem C19_lrx_failed_call_forgets_nothing :
+  forall (A K R : Type) (key : A -> K) (keqb : K -> K -> bool) (f : A -> N -> R) (valid : option Z) (mx : nat)
+         (s : @lx_st A K R) (a : A),
+  lx_lookup key keqb valid s a = None ->
+  lrx_ev key keqb f mx valid (XCall a XNil true) s =
+  (mkLX (lru_live valid (lx_now s) (lx_items s)) (lx_now s) (lx_log s ++ [(a, lx_now s)]),
+   [(mkXO a (lx_now s) false None, lru_live valid (lx_now s) (lx_items s))]).
+Proof. exact lrx_failed_call_forgets_nothing. Qed.
+Print Assumptions C19_lrx_failed_call_forgets_nothing.
+
+(* lru_cache_with_expiry under interleaving (the step model of C19_lru_interleaving_returns_own_fresh): any number
+   of callers, any schedule, any clock advances - once every caller has returned or raised, the cache holds at most
+   max_size entries.  (In between it may exceed max_size by one entry per caller that has stored and not yet
+   trimmed: Proofs/C19_Reent.v, lru_interleaving_size.) *)
+Theorem C19_lru_interleaving_size_within_max_at_rest :
+  forall (A K R : Type) (key : A -> K) (keqb : K -> K -> bool) (f : A -> N -> R) (valid : option Z) (mx : nat)
+         (t0 : Z) (args : list A) (sch : list sched),
+  let st := lcrun key keqb f mx valid sch (mkLS [] 0 t0 0 [], map (fun a => mkLT a LTime) args) in
+  (forall t, In t (snd st) -> exists now hit r, lt_pc t = LDone now hit r) ->
+  length (ls_items (fst st)) <= mx.
+Proof.
+  intros A K R key keqb f valid mx t0 args sch. exact (proj2 (lru_interleaving_size A K R key keqb f valid mx t0 args sch)).
+Qed.
+Print Assumptions C19_lru_interleaving_size_within_max_at_rest.
+
 (* ------------------------- non-vacuity ------------------------- *)
 Definition ex_a : carg := ([1%Z], []).
 Definition ex_b : carg := ([0%Z], []).
@@ -341,11 +485,49 @@ Proof. reflexivity. Qed.
    stored, sees its age and recomputes; and a schedule where caller 1 is served from the cache *)
 Example ex_lru_interleaving_stale_entry_recomputed :
   map (fun t => lt_pc t) (snd (lcrun ckey_of ckeqb cf 2 (Some 5%Z)
-        (repeat (SStep 0) 8 ++ [STick 6] ++ repeat (SStep 1) 5 ++ [SStep 0] ++ repeat (SStep 1) 7 ++ repeat (SStep 0) 3)
+        (repeat (SStep 0) 8 ++ [STick 6] ++ repeat (SStep 1) 5 ++ [SStep 0; SStep 0] ++ repeat (SStep 1) 7 ++ repeat (SStep 0) 3)
         lru3_init))
   = [LDone 1000 false (Some (([1%Z], []), 0%N)); LDone 1006 false (Some (([1%Z], []), 1%N))] /\
   map (fun t => lt_pc t) (snd (lcrun ckey_of ckeqb cf 2 (Some 5%Z)
-        (repeat (SStep 0) 8 ++ [STick 5] ++ repeat (SStep 1) 5 ++ [SStep 0] ++ repeat (SStep 1) 7 ++ repeat (SStep 0) 3)
+        (repeat (SStep 0) 8 ++ [STick 5] ++ repeat (SStep 1) 5 ++ [SStep 0; SStep 0] ++ repeat (SStep 1) 7 ++ repeat (SStep 0) 3)
         lru3_init))
   = [LDone 1000 false (Some (([1%Z], []), 0%N)); LDone 1005 true (Some (([1%Z], []), 0%N))].
 Proof. split; reflexivity. Qed.
+
+(* round 3.  max_size 2: calls b, a; then c, whose wrapped function fails - b and a are still held and served;
+   and c whose wrapped function asks for k2 through the wrapper - afterwards k2 and c are held (in that order) *)
+Example ex_forest_failed_call_forgets_nothing :
+  map (fun x => (xo_hit (fst x), map (fun e => fst e) (snd x)))
+      (snd (lrx_run ckey_of ckeqb cf 2 None
+              (xl [XCall ex_b XNil false; XCall ex_a XNil false; XCall ex_c XNil true; XCall ex_b XNil false; XCall ex_a XNil false])
+              (lx_init 1000)))
+  = [(false, [ckey_of ex_b]); (false, [ckey_of ex_b; ckey_of ex_a]); (false, [ckey_of ex_b; ckey_of ex_a]);
+     (true, [ckey_of ex_a; ckey_of ex_b]); (true, [ckey_of ex_b; ckey_of ex_a])].
+Proof. reflexivity. Qed.
+
+Example ex_forest_recursive_memoisation :
+  map (fun x => (xo_arg (fst x), xo_hit (fst x), map (fun e => fst e) (snd x)))
+      (snd (lrx_run ckey_of ckeqb cf 2 None
+              (xl [XCall ex_b XNil false; XCall ex_a XNil false; XCall ex_c (xl [XCall ex_k2 XNil false]) false; XCall ex_a XNil false])
+              (lx_init 1000)))
+  = [(ex_b, false, [ckey_of ex_b]); (ex_a, false, [ckey_of ex_b; ckey_of ex_a]);
+     (ex_k2, false, [ckey_of ex_a; ckey_of ex_k2]); (ex_c, false, [ckey_of ex_k2; ckey_of ex_c]);
+     (ex_a, false, [ckey_of ex_c; ckey_of ex_a])].
+Proof. reflexivity. Qed.
+
+(* the premise of the at-rest theorem is satisfiable: two callers missing on a full cache (max_size 1), interleaved so that both have stored before either trims - two entries in between, one at rest *)
+Example ex_lru_interleaving_over_capacity_in_between :
+  let run n := lcrun ckey_of ckeqb cf 1 None (repeat (SStep 0) 10 ++ repeat (SStep 1) 11 ++ repeat (SStep 0) n ++ repeat (SStep 1) n)
+                 (mkLS [] 0 1000 0 [], [mkLT ex_a LTime; mkLT ex_b LTime]) in
+  length (ls_items (fst (run 0))) = 2 /\ length (ls_items (fst (run 3))) = 1 /\
+  forallb (fun t => match lt_pc t with LDone _ _ _ => true | _ => false end) (snd (run 3)) = true.
+Proof. vm_compute. repeat split. Qed.
+
+(* F-C19-3 (fixed by 962d1ca): the wrapped function of c re-enters for c and then uses b; the outer c then stores - it is
+   the most recently used key (last), where the assignment without the pop left it first *)
+Example ex_forest_same_key_reentry_is_most_recent :
+  map (fun e => fst e)
+      (lx_items (fst (lrx_run ckey_of ckeqb cf 2 (Some 2%Z)
+              (xl [XCall ex_c (xl [XCall ex_c XNil false; XCall ex_b XNil false]) false]) (lx_init 1000))))
+  = [ckey_of ex_b; ckey_of ex_c].
+Proof. reflexivity. Qed.
